@@ -14,6 +14,7 @@ import (
 func init() { Registry["C15"] = c15 }
 
 func c15(r *Report) {
+	defer c15Seed8(r)
 	defer c15Seed7(r)
 	defer c15Seed5(r)
 	defer c15Audit4(r)
